@@ -87,7 +87,7 @@ def last_field(lv):
 
 
 class Interp:
-    def __init__(self, db, inline=True, no_inline=(), opaque_calls=(), record_all_calls=True):
+    def __init__(self, db, inline=True, no_inline=(), opaque_calls=(), record_all_calls=True, refute_panic_edges=False):
         """db: analysis.facts.Facts"""
         self.db = db
         self.bodies = db.bodies
@@ -95,6 +95,7 @@ class Interp:
         self.phi_facts = {}       # pid-prefix (frame, block) -> {pred: frozenset(facts)}
         self.discr_tables = {}
         self.inline = inline
+        self.refute_panic_edges = refute_panic_edges
         self.no_inline = set(no_inline)
         self.opaque_calls = set(opaque_calls)
         self.res = None
@@ -839,7 +840,9 @@ class Interp:
                 edge[(bi, t['t'])] = cur
             elif k == 'assert':
                 c = self.op(cur, fid, t['cond'])
-                self.event('assert', cur, fid, bi, t.get('span'), val=c, extra={'expected': t['expected'], 'msg': t.get('msg')})
+                ev = self.event('assert', cur, fid, bi, t.get('span'), val=c, extra={'expected': t['expected'], 'msg': t.get('msg')})
+                if self.refute_panic_edges:
+                    ev.extra['why'] = self.refute(cur, self.truth(cur, c, not bool(t['expected'])))
                 fs = self.truth(cur, c, bool(t['expected']))
                 if ('false',) not in fs:
                     cur.facts |= fs
@@ -945,6 +948,12 @@ class Interp:
                 continue
             s2 = st.copy()
             added = set.intersection(*sets) if len(sets) > 1 else sets[0]
+            if self.refute_panic_edges and self.panic_only(g, tb):
+                why = self.refute(st, added)
+                kind = 'assert_discharged' if why else 'assert_open'
+                self.res.events.append(Event(kind, fid[-1][0], tuple(fid), bi, t.get('span'), st.copy(), val=d, extra={'target': tb, 'added': added, 'why': why}))
+                if why:
+                    continue
             s2.facts |= added
             edge[(bi, tb)] = s2
             self.res.events.append(Event('branch', fid[-1][0], tuple(fid), bi, t.get('span'), s2, val=d, extra={'target': tb, 'added': added, 'exp': t.get('exp')}))
@@ -952,10 +961,65 @@ class Interp:
         if ob in live and ob not in by_target:
             fs = self.switch_facts(st, d, dty, None, vals)
             if ('false',) not in fs:
+                if self.refute_panic_edges and self.panic_only(g, ob):
+                    why = self.refute(st, fs)
+                    kind = 'assert_discharged' if why else 'assert_open'
+                    self.res.events.append(Event(kind, fid[-1][0], tuple(fid), bi, t.get('span'), st.copy(), val=d, extra={'target': ob, 'added': fs, 'why': why}))
+                    if why:
+                        return
                 s2 = st.copy()
                 s2.facts |= fs
                 edge[(bi, ob)] = s2
                 self.res.events.append(Event('branch', fid[-1][0], tuple(fid), bi, t.get('span'), s2, val=d, extra={'target': ob, 'added': fs, 'exp': t.get('exp')}))
+
+    def panic_only(self, g, block):
+        key = (id(g), block)
+        c = self.__dict__.setdefault('_ponly', {})
+        if key not in c:
+            r = g.reach([block])
+            diverging = any(g.body['blocks'][x]['term']['k'] == 'call' and g.body['blocks'][x]['term']['t'] is None for x in r)
+            c[key] = diverging and not (r & set(g.returns()))
+        return c[key]
+
+    def refute(self, st, added):
+        """reason why taking an edge that adds `added` is impossible under the facts of st, or None"""
+        from .prover import Prover
+        if ('false',) in added:
+            return 'constant condition'
+        P = Prover(self, st.facts)
+        for f in added:
+            k = f[0]
+            try:
+                if k == 'lt' and P.le(f[2], f[1]):
+                    return 'proved %s <= %s' % (show(f[2])[:40], show(f[1])[:40])
+                if k == 'le' and P.lt(f[2], f[1]):
+                    return 'proved %s < %s' % (show(f[2])[:40], show(f[1])[:40])
+                if k == 'ne' and P.eq(f[1], f[2]):
+                    return 'proved %s == %s' % (show(f[1])[:40], show(f[2])[:40])
+                if k == 'ne':
+                    for a, b in ((f[1], f[2]), (f[2], f[1])):
+                        if is_c(b) and b[1] == 0 and a[0] == 'app' and a[1] == 'mod' and P.aligned(a[2], a[3]):
+                            return 'proved %s aligned to %s' % (show(a[2])[:40], show(a[3])[:20])
+                if k == 'eq' and (P.lt(f[1], f[2]) or P.lt(f[2], f[1])):
+                    return 'proved %s != %s' % (show(f[1])[:40], show(f[2])[:40])
+                if k in ('nottrue', 'true'):
+                    t = f[1]
+                    want = (k == 'true')
+                    if t[0] == 'app' and t[1] == 'is_pow2':
+                        x = t[2]
+                        from .prover import is_alignment
+                        pow2 = is_alignment(x)
+                        if pow2 and not want:
+                            return 'power of two by A2/A3'
+                    if t[0] == 'app' and t[1] == 'overflowed' and want:
+                        op, a, b = t[2], t[3], t[4]
+                        if op in ('wsub', 'sub') and P.le(b, a):
+                            return 'proved no underflow: %s <= %s' % (show(b)[:40], show(a)[:40])
+                    if t[0] == 'cmp':
+                        pass
+            except RecursionError:
+                return None
+        return None
 
     def merge_edge(self, edge, fid, key, st):
         edge[key] = st
